@@ -108,3 +108,121 @@ func replayLiteral(c *core.Ctx, cs litCase) {
 		}
 	}
 }
+
+// ------------------------------------------------------------------ redundant parentheses
+//
+// Printed scripts never hold a pair of parentheses that is not needed, so the
+// group reduction of the script reader is only ever seen by hand-written
+// text. (x) is x: every base script is evaluated as written and with one or
+// two pairs of parentheses put around its left operand, its right operand,
+// both, and the whole; each variant has to parse and to give the base's truth
+// value, through NewScript, NewFilter and the path reader.
+
+type parenCase struct {
+	Leg   string `json:"leg"`
+	Base  string `json:"base_script"`
+	Text  string `json:"script"`
+	Entry string `json:"entry"`
+	Elem  any    `json:"element"`
+}
+
+var parenAtoms = []string{"@.a", "@.b", "1", "2", "'x'", "true", "$.a", "@.c.d", "length(@.a)", "2.5"}
+var parenOps = []string{"==", "!=", "<", ">=", "&&", "||", "+", "-", "*", "in", "has", "empty"}
+var parenElems = []any{
+	map[string]any{"a": int64(1), "b": int64(2)}, map[string]any{"a": int64(2), "b": int64(1), "c": map[string]any{"d": int64(2)}},
+	map[string]any{"a": "x", "b": true}, map[string]any{"a": []any{int64(1), int64(2)}, "b": []any{}}, map[string]any{},
+}
+
+// evalParen evaluates the script text through one entry point; for the path
+// forms the element is put into a one-element list and selected by the filter.
+func evalParen(entry, text string, elem any) (got bool, err error, pv any) {
+	defer func() { pv = recover() }()
+	switch entry {
+	case "NewScript":
+		s, e := jp.NewScript(text)
+		if e != nil {
+			return false, e, nil
+		}
+		return s.Match(elem), nil, nil
+	case "NewFilter":
+		f, e := jp.NewFilter("[?" + text + "]")
+		if e != nil {
+			return false, e, nil
+		}
+		return len(jp.Expr{jp.Root(0x24), f}.Get([]any{elem})) > 0, nil, nil
+	}
+	x, e := jp.ParseString("$[?" + text + "]")
+	if e != nil {
+		return false, e, nil
+	}
+	return len(x.Get([]any{elem})) > 0, nil, nil
+}
+
+func parenVariants(l, op, r string) []string {
+	return []string{
+		"((" + l + ") " + op + " " + r + ")", "(" + l + " " + op + " (" + r + "))", "((" + l + ") " + op + " (" + r + "))",
+		"(((" + l + ")) " + op + " " + r + ")", "(" + l + " " + op + " ((" + r + ")))", "((" + l + " " + op + " " + r + "))",
+	}
+}
+
+func parenLeg(c *core.Ctx) {
+	type tri struct{ l, op, r string }
+	var bases []tri
+	for _, l := range parenAtoms {
+		for _, op := range parenOps {
+			for _, r := range parenAtoms {
+				bases = append(bases, tri{l, op, r})
+			}
+		}
+	}
+	// two comparisons under a logical operator: the operands are groups themselves
+	for _, op := range []string{"&&", "||"} {
+		// (a ! only on the right: the reader lets ! take everything to its right, a
+		// listed finding of C14, so parentheses around a left operand that starts
+		// with ! are not redundant for it)
+		for _, l := range []string{"@.a == 1", "@.b > 1", "@.b"} {
+			for _, r := range []string{"@.b == 2", "@.a < 2", "@.a in [1,2]", "!@.b"} {
+				bases = append(bases, tri{l, op, r})
+			}
+		}
+	}
+	for _, b := range bases {
+		base := "(" + b.l + " " + b.op + " " + b.r + ")"
+		for _, entry := range []string{"NewScript", "NewFilter", "ParseString"} {
+			for _, el := range parenElems {
+				want, berr, bpv := evalParen(entry, base, el)
+				c.Eval()
+				if berr != nil || bpv != nil {
+					continue // the base itself is not accepted (a panic is reported by the matrix / C06)
+				}
+				for _, v := range parenVariants(b.l, b.op, b.r) {
+					got, err, pv := evalParen(entry, v, el)
+					c.Eval()
+					c.Add("redundant_parentheses_cases", 1)
+					cs := parenCase{Leg: "parens", Base: base, Text: v, Entry: entry, Elem: el}
+					switch {
+					case pv != nil:
+						c.Fail(core.Sig("parens", "entry="+entry, "op="+b.op, "panic"), cs, len(v), "the value of "+base, fmt.Sprintf("panic: %v", pv))
+					case err != nil:
+						c.Fail(core.Sig("parens", "entry="+entry, "op="+b.op, "parse-error"), cs, len(v), "parses like "+base, err.Error())
+					case got != want:
+						c.Fail(core.Sig("parens", "entry="+entry, "op="+b.op, fmt.Sprintf("exp=%v|got=%v", want, got)), cs, len(v), fmt.Sprint(want), fmt.Sprint(got))
+					default:
+						c.NontrivialKey("parens:" + v)
+					}
+				}
+			}
+		}
+	}
+}
+
+func replayParen(c *core.Ctx, cs parenCase) {
+	want, berr, bpv := evalParen(cs.Entry, cs.Base, cs.Elem)
+	if berr != nil || bpv != nil {
+		return
+	}
+	got, err, pv := evalParen(cs.Entry, cs.Text, cs.Elem)
+	if pv != nil || err != nil || got != want {
+		c.Fail("replay|parens", cs, 1, fmt.Sprint(want), fmt.Sprintf("%v %v %v", got, err, pv))
+	}
+}
